@@ -290,6 +290,12 @@ func (ts *TStateView) Remove(ctx context.Context, key []byte) error {
 		ts.writes[k] = 0
 		ts.pendingChangedKeys[k] = maybe.Nothing[[]byte]()
 	}
+	if !isUnchanged {
+		// The key exists in the parent view (it was removed and re-created
+		// in this view), so it must stay explicitly deleted.
+		ts.writes[k] = 0
+		ts.pendingChangedKeys[k] = maybe.Nothing[[]byte]()
+	}
 	if isUnchanged {
 		delete(ts.allocates, k)
 		delete(ts.writes, k)
